@@ -261,9 +261,12 @@ func (u *Unit) loopHeader(fc *frameCtx, fi *fnInfo, li *loopInfo, st *State, pc 
 	al := &activeLoop{li: li, frame: fr, bound: st.alloc}
 	fc.loops = append(fc.loops, al)
 	// 3. havoc
+	allocBeforeLoop := st.alloc
 	u.havoc(st, pc, fr)
 	if u.loopLogs(li) {
+		lenBefore := u.logLen(st)
 		u.logHavoc(st, pc)
+		u.sentAllocatedDuring(st, pc, lenBefore, allocBeforeLoop)
 	}
 	newVals := map[*ssa.Phi]*SV{}
 	for _, p := range phis {
